@@ -30,9 +30,10 @@ namespace nmtools::index
                 at(res,0_ct) = n;
             else {
                 using element_t = meta::get_index_element_type_t<return_t>;
+                // following numpy, negative axis counts from the last axis
+                const auto m_axis = ((nm_index_t)axis < 0) ? ((nm_index_t)axis + (nm_index_t)len(shape)) : (nm_index_t)axis;
                 auto shape_take_impl = [&](auto i){
-                    using common_t = meta::promote_index_t<axis_t,decltype(i)>;
-                    at(res,i) = ((common_t)i == (common_t)axis) ? (element_t)n : (element_t)at(shape,i);
+                    at(res,i) = ((nm_index_t)i == m_axis) ? (element_t)n : (element_t)at(shape,i);
                 };
                 [[maybe_unused]] auto dim = len(shape);
                 if constexpr (meta::is_resizable_v<return_t>)
@@ -79,14 +80,26 @@ namespace nmtools::index
             // TODO: provide overload that already compute strides
             auto strides = compute_strides(shape);
             auto dst_i   = at(index,0);
-            auto offset  = at(indices,dst_i);
+            // following numpy, negative index counts from the end (of the flattened array)
+            auto m_offset = (nm_index_t)at(indices,dst_i);
+            if (m_offset < 0) {
+                m_offset += (nm_index_t)(at(strides,0) * at(shape,0));
+            }
+            auto offset  = (size_t)m_offset;
             impl::compute_indices(res, offset, shape, strides);
         }
         else {
+            // following numpy, negative axis counts from the last axis
+            const auto m_axis = ((nm_index_t)axis < 0) ? ((nm_index_t)axis + (nm_index_t)dim) : (nm_index_t)axis;
             auto take_impl = [&](auto i){
                 auto dst_i = at(index,i);
-                using common_t = meta::promote_index_t<axis_t,decltype(i)>;
-                at(res, i) = ((common_t)i == (common_t)axis) ? at(indices,dst_i) : dst_i;
+                if ((nm_index_t)i == m_axis) {
+                    // following numpy, negative index counts from the end of the axis
+                    auto src_i = (nm_index_t)at(indices,dst_i);
+                    at(res, i) = (src_i < 0) ? (src_i + (nm_index_t)at(shape,i)) : src_i;
+                } else {
+                    at(res, i) = dst_i;
+                }
             };
             if constexpr (meta::is_fixed_index_array_v<index_t>) {
                 constexpr auto DIM = meta::len_v<index_t>;
